@@ -392,9 +392,9 @@ Proof.
   - intros; simpl; Rauto.
   - intros; simpl; Rauto.
   - (* HNil *) intros n st X N E H1 H2 H. simpl. auto.
-  - (* HCons *) intros pat hastg tl te hb IHb rest IHr n st X N E H1 H2 H. simpl.
-    set (X1 := refs pat (set_cur (Some E) X)).
-    assert (G1 : R n st X1) by (unfold X1; apply R_refs, R_set_cur_some; auto).
+  - (* HCons *) intros hastg tl te hb IHb rest IHr n st X N E H1 H2 H. simpl.
+    set (X1 := set_cur (Some E) X).
+    assert (G1 : R n st X1) by (unfold X1; apply R_set_cur_some; auto).
     match goal with |- R _ _ (snd (visit_h _ _ _ _ ?Z)) /\ _ => assert (G6 : R n st Z) end.
     { apply R_link_cur, IHb. destruct hastg; Rauto. }
     match type of G6 with R _ _ ?Z =>
@@ -453,6 +453,18 @@ Proof. unfold v_return. destruct (cur X); [|(split; reflexivity)]. destruct fx.
   - unfold jump_ret_asis. destruct (first_fin (excs X)) as [[[fe [[fxb kx]|]] r]|]; split; simpl; auto. Qed.
 Lemma ceq_v_raise X : ceq X (v_raise X).
 Proof. unfold v_raise. destruct (cur X); [|(split; reflexivity)]. destruct (excs X) eqn:E; split; simpl; auto. Qed.
+
+Lemma pop_push_loop_exc d X6 Z :
+  loops Z = loops (push_loop_exc d X6) -> loops (pop_loop_exc Z) = loops X6.
+Proof.
+  unfold push_loop_exc, pop_loop_exc. destruct (loops X6) as [|L r] eqn:E; intros H.
+  - rewrite E in H. rewrite H. exact H.
+  - simpl in H. rewrite H. simpl. destruct L; reflexivity.
+Qed.
+Lemma excs_pop_loop_exc Z : excs (pop_loop_exc Z) = excs Z.
+Proof. unfold pop_loop_exc. destruct (loops Z); reflexivity. Qed.
+Lemma excs_push_loop_exc d Z : excs (push_loop_exc d Z) = excs Z.
+Proof. unfold push_loop_exc. destruct (loops Z); reflexivity. Qed.
 
 Definition visit_ceq_stmt (fx : bool) (s : stmt) : Prop := forall X, ceq X (visit fx s X).
 Definition visit_ceq_h (fx : bool) (hs : handlers) : Prop :=
@@ -513,26 +525,25 @@ Proof.
   - (* Try *) intros body IHb hasel el IHel hs IHh X. simpl.
     match goal with |- ceq _ (let '(E', st9) := visit_h fx hs _ _ ?Z in _) =>
       assert (H8 : ceq X Z) end.
-    { match goal with |- ceq _ (match cur ?Y with _ => _ end) => assert (H7 : ceq X Y) end.
-      { match goal with |- ceq _ (pop_exc (visit _ _ ?W)) =>
-          assert (H6 : loops W = loops X /\ excs W = {| x_entry := S (S (nb X)); x_fin := None |} :: excs X) end.
-        { match goal with |- loops (nextblock ?W) = _ /\ _ =>
-            destruct (ceq_nextblock_from None W) as [A B];
-            assert (HW : loops W = loops X /\ excs W = {| x_entry := S (S (nb X)); x_fin := None |} :: excs X) end.
-          { match goal with |- loops (link_cur _ (nextblock ?V)) = _ /\ _ =>
-              destruct (ceq_nextblock_from None V) as [C D]; destruct (ceq_add_edge_o (cur (nextblock V)) (S (S (nb X))) (nextblock V)) as [C' D'] end.
-            unfold link_cur. rewrite C', D', C, D. simpl. auto. }
-          destruct HW. split; congruence. }
-        match goal with |- ceq _ (pop_exc (visit _ _ ?W)) => destruct (IHb W) as [A B] end.
-        destruct H6 as [H6a H6b]. split; simpl; [congruence|rewrite B, H6b; reflexivity]. }
-      match goal with |- ceq _ (match cur ?Y with _ => _ end) => destruct (cur Y) end; auto.
+    { match goal with |- context [visit fx body ?W] => set (W0 := W) end.
+      assert (H6 : loops W0 = loops X /\ excs W0 = {| x_entry := S (S (nb X)); x_fin := None |} :: excs X).
+      { unfold W0.
+        match goal with |- loops (nextblock ?W) = _ /\ _ => destruct (ceq_nextblock_from None W) as [A B] end.
+        match goal with |- loops (nextblock (link_cur ?e (nextblock ?V))) = _ /\ _ =>
+          destruct (ceq_nextblock_from None V) as [C D];
+          destruct (ceq_add_edge_o (cur (nextblock V)) e (nextblock V)) as [C' D'] end.
+        unfold nextblock, link_cur in *. rewrite A, B, C', D', C, D. simpl. auto. }
+      assert (H7 : ceq X (pop_exc (visit fx body W0))).
+      { destruct (IHb W0) as [A B]. destruct H6 as [H6a H6b].
+        split; simpl; [congruence|rewrite B, H6b; reflexivity]. }
+      destruct (cur (visit fx body W0)); auto.
       eapply ceq_trans; [exact H7|]. eapply ceq_trans; [|apply ceq_add_edge_o].
       destruct hasel; [|(split; reflexivity)]. eapply ceq_trans; [|apply IHel]. apply ceq_nextblock_from. }
     match type of H8 with ceq _ ?Z =>
       pose proof (IHh Z (nb X) (S (S (nb X)))) as H9;
       destruct (visit_h fx hs (nb X) (S (S (nb X))) Z) as [E' st9] end.
     simpl in H9. pose proof (ceq_trans _ _ _ H8 H9) as [A B].
-    destruct (excs st9); split; simpl; auto.
+    destruct (excs st9) eqn:Ex; split; simpl; congruence.
   - (* TryFin *) intros body IHb fexc IHe fnorm IHn X. simpl.
     set (X2 := if fx then exc_edge (set_cur (Some (S (nb X))) (newblock (nextblock X)))
                else set_cur (Some (S (nb X))) (newblock (nextblock X))).
@@ -544,38 +555,33 @@ Proof.
     assert (H3 : ceq X X3) by (eapply ceq_trans; [exact H2|apply IHe]).
     set (X4 := match cur X3, excs X3 with Some b, x :: _ => add_edge b (x_entry x) X3 | _, _ => X3 end).
     assert (H4 : ceq X X4).
-    { unfold X4. destruct (cur X3); auto. destruct (excs X3) eqn:E; auto. destruct H3. split; simpl; congruence. }
+    { unfold X4. destruct (cur X3); auto. destruct (excs X3) eqn:E; auto. }
     set (X6 := visit fx fnorm (set_cur (Some (nb X4)) (newblock X4))).
     assert (H6 : ceq X X6).
     { eapply ceq_trans; [|apply IHn]. destruct H4. split; simpl; auto. }
     set (fexit := match cur X6 with Some b => Some (b, len X6 b) | None => None end).
     set (d := {| x_entry := S (nb X); x_fin := Some (nb X4, fexit) |}).
-    set (X8 := nextblock (add_edge (nb X) (S (nb X)) (set_cur (Some (nb X)) (push_exc d (push_loop_exc d X6))))).
+    set (Y7 := add_edge (nb X) (S (nb X)) (set_cur (Some (nb X)) (push_exc d (push_loop_exc d X6)))).
+    set (X8 := nextblock Y7).
     set (X9 := pop_loop_exc (pop_exc (visit fx body X8))).
     assert (H9 : ceq X X9).
-    { destruct (IHb X8) as [A B]. destruct (ceq_nextblock_from None
-        (add_edge (nb X) (S (nb X)) (set_cur (Some (nb X)) (push_exc d (push_loop_exc d X6))))) as [C D].
-      fold X8 in C, D. destruct H6 as [P Q].
-      assert (E8 : excs X8 = d :: excs X).
-      { rewrite D. simpl. unfold push_loop_exc. destruct (loops X6); simpl; congruence. }
+    { destruct (IHb X8) as [A B]. destruct (ceq_nextblock_from None Y7) as [C D].
+      change (nextblock_from None Y7) with X8 in C, D. destruct H6 as [P Q].
       unfold X9. split.
-      - unfold pop_loop_exc. simpl. rewrite A, C. simpl. unfold push_loop_exc.
-        destruct (loops X6) as [|L r] eqn:EL; simpl; [congruence|].
-        rewrite <- P. destruct L; reflexivity.
-      - unfold pop_loop_exc. simpl. destruct (loops (visit fx body X8)); simpl; rewrite B, E8; reflexivity. }
-    fold X2 X3 X4 X6 fexit d X8 X9.
+      - rewrite (pop_push_loop_exc d X6); [exact P|]. simpl. rewrite A, C. reflexivity.
+      - rewrite excs_pop_loop_exc. simpl. rewrite B, D. simpl. rewrite excs_push_loop_exc. exact Q. }
+    fold X2 X3 X4 X6 fexit d Y7 X8 X9.
     destruct (cur X9); auto. destruct fexit as [[fxb k]|]; destruct H9; split; simpl; auto.
   - intros; apply ceq_v_break.
   - intros; apply ceq_v_break.
   - intros; apply ceq_v_return.
   - intros; apply ceq_v_raise.
   - intros; simpl; (split; reflexivity).
-  - intros pat hastg tl te hb IHb rest IHr X N E. simpl.
+  - intros hastg tl te hb IHb rest IHr X N E. simpl.
     eapply ceq_trans; [|apply IHr].
     eapply ceq_trans; [|apply ceq_add_edge_o]. eapply ceq_trans; [|apply IHb].
-    assert (H1 : ceq X (refs pat (set_cur (Some E) X))).
-    { eapply ceq_trans; [|apply ceq_refs]. (split; reflexivity). }
+    assert (H1 : ceq X (set_cur (Some E) X)) by (split; reflexivity).
     eapply ceq_trans; [exact H1|].
     eapply ceq_trans; [|destruct hastg; [apply ceq_v_asg|(split; reflexivity)]].
-    eapply ceq_trans; [|apply ceq_nextblock_from]. eapply ceq_trans; [|apply ceq_add_edge_o]. (split; reflexivity).
+    eapply ceq_trans; [|apply ceq_nextblock_from]. split; reflexivity.
 Qed.
